@@ -305,8 +305,12 @@ Proof.
   rewrite Hc, Hl, (IH bal Hw'). reflexivity.
 Qed.
 
+(* exactly two components that are not exactly zero (components left behind by a commodity that cancelled do not count) *)
 Definition two_entries (v : value) : bool :=
-  match v with VBal [_; _] => true | _ => false end.
+  match v with
+  | VBal b => match filter (fun a => negb (is_realzero a)) b with [_; _] => true | _ => false end
+  | _ => false
+  end.
 
 Lemma infer_rate_id ord cp ps bal nul :
   (nul <> None \/ two_entries bal = false) -> infer_rate ord cp ps bal nul = Ok (ps, bal).
@@ -314,7 +318,8 @@ Proof.
   intros H. unfold infer_rate. destruct nul; [reflexivity|].
   destruct H as [H|H]; [contradiction|].
   destruct bal as [| ? | ? | ? | b]; try reflexivity.
-  destruct b as [|x [|y [|z b]]]; try reflexivity. discriminate.
+  cbn [two_entries] in H.
+  destruct (filter (fun a => negb (is_realzero a)) b) as [|x [|y [|z b']]]; try reflexivity. discriminate.
 Qed.
 
 Definition all_have_amounts (ps : list post) : Prop :=
